@@ -14,7 +14,7 @@ LEVEL = 'exploration'
 RULE = ('Generated: genome sets of 1..10 genomes with unique key / genbank_acc / refseq_acc (nasty Unicode strings) and ncbi_id (ints up to '
         '2^62), 0..3 Genome rows outside the set; a signature file whose IDs are the set\'s IDs for the drawn id_attr plus 0..6 unrelated '
         'IDs (some equal to another attribute\'s ID of a genome or to an outside genome\'s ID) in a drawn permutation; all four identifier '
-        'attributes; file names .gdb/.db and .gs/.h5 plus unrelated extra files. Negative variants (one per case): needed signatures '
+        'attributes; file names .gdb/.db and .gs/.h5 plus unrelated extra files; the genome file in rollback-journal mode, WAL mode, or WAL mode with a stale file (identifiers rotated among the genomes) and the true identifiers in a committed transaction of the write-ahead log beside it. Negative variants (one per case): needed signatures '
         'dropped, id_attr None, id_attr not an identifier attribute, NULL identifier in the set, integer IDs stored as strings, none / two '
         'genome files, none / two signature files. Oracle R-DB: after ReferenceDatabase.load_from_dir every genome of the set is present '
         'once, signatures.ids[sig_indices[i]] equals genome_i.<id_attr> and signatures[sig_indices[i]] is the array written for that '
